@@ -87,15 +87,21 @@ CLAIMED = {
           "Coq proofs over integer-scaled decimals + mantissa/scale correspondence with an exact-rational oracle", "6/C09"),
  "C10": C("Proof (Coq): for every operator table and every string, the model tokenizer never panics, its tokens cover non-empty segments on character "
           "boundaries whose text is exactly that segment (strings: between the quotes), spans strictly increase, gaps and the tail at EOF are whitespace "
-          "(Props/C10.v: C10_total, C10_text, C10_increasing, C10_gaps, C10_slice_model). " + TIE + "~35k inputs per quick run through the cfg-guarded tokenize hook.",
+          "(Props/C10.v: C10_total, C10_text, C10_increasing, C10_gaps, C10_slice_model); the character classes and the dispatch on the first character are, for every "
+          "character, those translated from tokenizer.rs's source text on every run (C10_char_classes_are_source). " + TIE + "~35k inputs per quick run through the cfg-guarded tokenize hook.",
           "Coq kernel; longest-match for operator sets that are not prefix-closed is the known finding D12.",
           "Coq proof of a tiling invariant over the tokenizer model + differential correspondence", "6/C10"),
- "C11": C("Proof (Coq), partial. Proved: gaps between tokens are whitespace only (C11_gaps_are_whitespace), the four blanks are skipped alike, string "
-          "payloads are verbatim (C11_strings_verbatim), the call look-ahead skips any amount of blanks (C11_call_lookahead_skips_blanks), parentheses are transparent - a parenthesised "
-          "operand yields exactly the inner expression's tree - and must be closed (C11_parens_transparent, C11_parens_must_close). Invariance of the "
-          "whole parse under re-layout and re-parenthesisation is decided on each run: every gap of 600 accepted programs rewritten, every subexpression "
-          "wrapped in 1/2/5 pairs of parentheses, ASTs compared. " + TIE, "Coq kernel; token spans from the hook.",
-          "Coq tokenizer lemmas + metamorphic correspondence (layout and parenthesis variants)", "6/C11"),
+ "C11": C("Proof (Coq). WHITESPACE NEVER CHANGES THE PARSE (C11_whitespace_invariance, C11_whitespace_tokens; Lemmas/LexerWs.v): for every input, every table "
+          "whose operators contain no whitespace and whose word operators consist of name characters (the dumped built-in table does: C11_builtin_table_lex_ok), and every "
+          "re-spacing of the gaps around its tokens - whitespace added between two touching tokens, the amount changed where some was, leading/trailing whitespace added or "
+          "removed; names not operator words, as the property states - the tokenizer model yields the same token kinds and payloads, hence the same parse; by one-token "
+          "stability lemmas for each scanner (operator longest-match loop, number, string, word/name with call look-ahead) and induction over the token stream. Also "
+          "proved: gaps are whitespace only (C11_gaps_are_whitespace), the four blanks are skipped alike, string payloads are verbatim (C11_strings_verbatim), the "
+          "call look-ahead skips blanks (C11_call_lookahead_skips_blanks), a parenthesised operand yields exactly the inner expression's tree and must be closed "
+          "(C11_parens_transparent, C11_parens_must_close); minimal parenthesisation parses back for every tree (C02_round_trip). Arbitrary redundant parentheses inside a "
+          "larger program, and the model-to-code tie, are decided on each run: every gap of 600 accepted programs rewritten, every subexpression wrapped in 1/2/5 pairs "
+          "of parentheses, ASTs compared. " + TIE, "Coq kernel; token spans from the hook; redundant nested parentheses in context rest on the correspondence.",
+          "Coq proof (tokenizer invariant under re-spacing, all inputs) + parser lemmas + metamorphic correspondence (layout and parenthesis variants)", "6/C11"),
  "C12": C("Proof (Coq). The round trip is a theorem: for every operator table and every well-formed tree or `;`-program within the depth limit, parsing the "
           "printer's token image gives back the tree (C12_round_trip_tokens); whenever the tokenizer model reads the printer model's TEXT as that token image "
           "(a computable check, C12_round_trip's second premise) parse(expr(t)) = t and expr is idempotent (C12_round_trip, C12_idempotent). Both computable "
